@@ -89,6 +89,7 @@ def problems(env, cfg, tier):
             "C09.last": last == (~ok | was_last_node),
             "C09.frame": (s2.adj_matrix == s.adj_matrix).all() & (s2.key == s.key).all(),
             # variant V = n - current node (the index wraps to 0 only on the LAST step of a complete colouring)
+            "C11.last_only_for_a_documented_reason": ~last | ~ok | complete2,
             "C11.variant_decreases": last | (n - cur2 < n - cur),
             "C11.variant_bounded": (n - cur >= 1) & (n - cur <= n),
             "C11.variant_positive_after_mid_step": last | (n - cur2 >= 1),
